@@ -3,10 +3,10 @@
 // unit, `//@@ FN|SIG rational/sign/base_sign_neg.rs` (the REAL base/src/sign.rs `Neg for Sign::neg`).
 //
 // TRUSTED (unchecked assumptions, listed in the evidence):
-//  * dashu_base::ExtendedGcd::gcd_ext for Word / DoubleWord (base/src/ring/gcd.rs, one macro body for every width):
-//    the contract PROVED for the u8 instance by the complete Kani harnesses vk_base_gcd_gcd_ext_u8 (kani/harness/base_gcd.rs:
-//    g > 0, g | a, g | b, s*a + t*b == g) and vk_gcdo_base_gcd_ext_bound_u8 (kani/harness/gcdo_base.rs: the cofactor
-//    bounds |s| <= b, |t| <= a for a, b > 0 and |t| < a for a > b > 0), ASSUMED for the wider instances.
+//  * (NO LONGER TRUSTED) dashu_base::ExtendedGcd::gcd_ext for Word / DoubleWord (base/src/ring/gcd.rs, one macro body for every
+//    width): the contract (g > 0, g | a, g | b, s*a + t*b == g, the cofactor bounds |s| <= b, |t| <= a for a, b > 0 and |t| < a for
+//    a > b > 0) is PROVED unbounded for the u32 / u64 / u128 instances in unit base_gcd and imported here with //@@ SIG; the impls
+//    below only forward to it (Verus checks that the proved contract implies prim_gcd_ext_post).
 //    gcd_ext(0, 0) panics (documented; vk_base_gcd_ext_zero_zero_*): precondition.
 //  * crate::primitive::PrimitiveSigned::to_sign_magnitude for SignedDoubleWord (same macro body as the SignedWord impl
 //    of lib/sign.rs; proved for all widths by the Kani group int_primitive).
@@ -55,6 +55,10 @@ pub trait ExtendedGcd<Rhs = Self>: Sized {
         requires self.gcd_ext_req(rhs),
         ensures self.gcd_ext_post(rhs, r);
 }
+// base/src/ring/gcd.rs `impl_gcd_ops_prim` :: `ExtendedGcd::gcd_ext` instantiated for Word and DoubleWord: contracts generated from
+// the annotated copy PROVED (unbounded) in unit base_gcd (hoisted free functions gcd_ext_@W@ / gcd_ext_@D@)
+//@@ SIG base/ring_gcd/gcd_ext.rs variant=@W@ msubst=U:@W@,I:@SW@
+//@@ SIG base/ring_gcd/gcd_ext.rs variant=@D@ msubst=U:@D@,I:@SD@
 impl ExtendedGcd for Word {
     type OutputGcd = Word;
     type OutputCoeff = SignedWord;
@@ -62,8 +66,8 @@ impl ExtendedGcd for Word {
     open spec fn gcd_ext_post(self, rhs: Word, r: (Word, SignedWord, SignedWord)) -> bool {
         prim_gcd_ext_post(self as int, rhs as int, r.0 as int, r.1 as int, r.2 as int)
     }
-    #[verifier::external_body]
-    fn gcd_ext(self, rhs: Word) -> (r: (Word, SignedWord, SignedWord)) { unimplemented!() }
+    // NOT trusted any more: forwards to the contract PROVED on the real macro body in unit base_gcd (//@@ SIG above)
+    fn gcd_ext(self, rhs: Word) -> (r: (Word, SignedWord, SignedWord)) { gcd_ext_@W@(self, rhs) }
 }
 impl ExtendedGcd for DoubleWord {
     type OutputGcd = DoubleWord;
@@ -72,8 +76,8 @@ impl ExtendedGcd for DoubleWord {
     open spec fn gcd_ext_post(self, rhs: DoubleWord, r: (DoubleWord, SignedDoubleWord, SignedDoubleWord)) -> bool {
         prim_gcd_ext_post(self as int, rhs as int, r.0 as int, r.1 as int, r.2 as int)
     }
-    #[verifier::external_body]
-    fn gcd_ext(self, rhs: DoubleWord) -> (r: (DoubleWord, SignedDoubleWord, SignedDoubleWord)) { unimplemented!() }
+    // NOT trusted any more: forwards to the contract PROVED on the real macro body in unit base_gcd (//@@ SIG above)
+    fn gcd_ext(self, rhs: DoubleWord) -> (r: (DoubleWord, SignedDoubleWord, SignedDoubleWord)) { gcd_ext_@D@(self, rhs) }
 }
 
 /// C12 for "large number (value l) against a small one (value x)": returned (g, a, sign of b) with |b| = bm left in
